@@ -27,7 +27,8 @@ RULE = ("seeded random histories: 2-4 leaves (exact family: PersLandscapeExact f
         "changes, shared-support lists with non-zero end ordinates; approximate family: PersLandscapeApprox from "
         "diagrams and from explicit values= arrays of dtype int64 / float64 on equal and unequal grids, with different depth "
         "counts in all four dtype combinations and fractional values on the float side; exact landscapes also from "
-        "critical_pairs given as Python ints vs floats), then 6-12 operations (+, -, neg, c*, *c, "
+        "critical_pairs given as Python ints vs floats; landscapes built with compute=False whose first use is an "
+        "operation, in both operand positions, against operands of other depth counts), then 6-12 operations (+, -, neg, c*, *c, "
         "/c; approximate also snap_pl, lc_approx, average_approx; plus degree / grid mismatches and division by "
         "0) reusing operands.  dyadic inputs are compared exactly, random doubles within 1e-9.  A history is "
         "non-trivial when a binary operation on two different operands, a re-sampling onto a different grid or "
@@ -53,6 +54,10 @@ ASSUMPTIONS = [
 TOL = Fraction(1, 10 ** 9)
 COQ_DEPS = ["Corr/LandArithCorr.vo"]
 FINDING = "C09-nonzero-first-ordinate"
+# The element-wise operators of PersLandscapeApprox do not call compute_landscape(): on the unchanged tree a grid
+# landscape built with compute=False raises ValueError when + - neg * / is its first use (see
+# fixes/C09_lazy_approx_operators.patch).  Set to True once that patch is in /repo.
+LAZY_GRID_ELEMENTWISE = False
 
 
 # =====================================================================================  generators
@@ -110,6 +115,16 @@ def _bars(rng, mode):
     return out
 
 
+def _nested_bars(rng, mode, k):
+    if mode == "exact":
+        b0, w, h = rng.randint(-4, 2) / 2, rng.randint(1, 3) / 2, rng.randint(1, 4) / 2
+    else:
+        b0, w, h = rng.uniform(-2, 1), rng.uniform(0.2, 1.5), rng.uniform(0.2, 2)
+    bars = [[float(b0 + i * w), float(b0 + (2 * k - 1 - i) * w + h)] for i in range(k)]
+    rng.shuffle(bars)
+    return bars
+
+
 def _scalar(rng, mode, div=False):
     if mode == "exact":
         if div:
@@ -143,6 +158,12 @@ def _gen_exact(rng, mode, cls):
                     e = (rng.uniform(-2, 2), rng.choice([0.0, rng.uniform(-2, 2)]))
                 cp.append(_cp_depth(rng, mode, x0=shared[0], total=shared[1], ends=e))
             leaves.append({"kind": "cp", "cp": cp, "hom_deg": 0})
+        elif cls == "lazy" and (len(leaves) == 0 or rng.random() < 0.4):
+            # built with compute=False from a diagram of k nested bars (k depths); its first use is arithmetic
+            leaves.append({"kind": "dgm", "dgm": _nested_bars(rng, mode, rng.randint(2, 4)), "hom_deg": 0, "lazy": True})
+        elif cls == "lazy" and (len(leaves) == 1 or rng.random() < 0.6):
+            leaves.append({"kind": "cp", "cp": [_cp_depth(rng, mode, x0=rng.choice([None, 0.0, 1.0]))
+                                                for _ in range(rng.randint(1, 2))], "hom_deg": 0})
         elif cls == "ints" and (len(leaves) == 0 or rng.random() < 0.5):
             # critical_pairs given as Python ints (integer abscissae with gaps 1, 2, 4, integer ordinates)
             cp = []
@@ -170,7 +191,17 @@ def _gen_exact(rng, mode, cls):
     steps = []
     nsteps = rng.randint(6, 12)
     nobj = len(leaves)
-    for _ in range(nsteps):
+    if cls == "lazy":
+        # every lazy leaf enters + / - as its first use, in either operand position
+        lz = [i for i, l in enumerate(leaves) if l.get("lazy")]
+        eager = [i for i, l in enumerate(leaves) if not l.get("lazy")]
+        for j in lz:
+            p = rng.choice(eager) if eager and rng.random() < 0.8 else rng.randrange(len(leaves))
+            a, b = (j, p) if rng.random() < 0.5 else (p, j)
+            steps.append({"op": rng.choice(["add", "sub"]), "a": a, "b": b, "nout": 1})
+            live.append((nobj, 0))
+            nobj += 1
+    for _ in range(nsteps - len(steps)):
         r = rng.random()
         d0 = [i for i, d in live if d == 0]
         d1 = [i for i, d in live if d == 1]
@@ -242,6 +273,9 @@ def _gen_approx(rng, mode, cls):
     for li in range(nl):
         g = g0 if (cls in ("samegrid", "dtypes") or rng.random() < 0.5) else _grid(rng, mode)
         deg = 1 if (cls == "errors" and rng.random() < 0.25) else 0
+        if cls == "lazy":
+            while g[2] < (3 if mode == "exact" else 4):
+                g = _grid(rng, mode)
         if cls == "dtypes":
             # explicit values= arrays of dtype int64 / float64, pairwise different depth counts,
             # fractional values on the float side
@@ -251,7 +285,7 @@ def _gen_approx(rng, mode, cls):
             leaves.append({"kind": "vals", "dtype": dt, "start": g[0], "stop": g[1], "num_steps": g[2], "hom_deg": 0,
                            "values": _vals(rng, mode, g[2], False, nd=depth_counts[li], integer=(dt == "int64"),
                                            fractional=True)})
-        elif rng.random() < 0.35 and g[2] >= (3 if mode == "exact" else 4):
+        elif (cls == "lazy" or rng.random() < 0.35) and g[2] >= (3 if mode == "exact" else 4):
             # bars inside the grid so that values is not the 'empty' array (that case is C08's)
             if mode == "exact":
                 h = (g[1] - g[0]) / (g[2] - 1)
@@ -266,6 +300,8 @@ def _gen_approx(rng, mode, cls):
                     b = rng.uniform(g[0], g[0] + 0.1 * (g[1] - g[0]))
                     bars.append([b, rng.uniform(g[0] + 0.9 * (g[1] - g[0]), g[1])])
             leaves.append({"kind": "dgm", "dgm": bars, "start": g[0], "stop": g[1], "num_steps": g[2], "hom_deg": deg})
+            if cls == "lazy" and (li == 0 or rng.random() < 0.5):
+                leaves[-1]["lazy"] = True        # compute=False; first use is in the forced steps below
         else:
             dt = "int64" if rng.random() < 0.2 else "float64"
             leaves.append({"kind": "vals", "dtype": dt,
@@ -278,6 +314,10 @@ def _gen_approx(rng, mode, cls):
     def liveidx():
         return [i for i, o in enumerate(objs) if o is not None]
 
+    forced = []
+    if cls == "lazy":
+        first = ["snap", "lc", "avg"] + (["add", "sub", "neg", "mul", "div"] if LAZY_GRID_ELEMENTWISE else [])
+        forced = [(rng.choice(first), j) for j, l in enumerate(leaves) if l.get("lazy")]
     if cls == "dtypes":
         pairs = [(i, j) for i in range(nl) for j in range(nl) if i != j]
         rng.shuffle(pairs)
@@ -303,6 +343,8 @@ def _gen_approx(rng, mode, cls):
             ops += ["snap", "snap", "lc", "lc", "avg"]
         op = rng.choice(ops)
         a = _pick(rng, live)
+        if forced:
+            op, a = forced.pop(0)
         st = {"op": op, "a": a, "nout": 1}
         if op in ("add", "sub"):
             same = [i for i in live if objs[i] == objs[a]]
@@ -357,13 +399,14 @@ def _gen_approx(rng, mode, cls):
 
 
 def generate(rng, tier):
-    n = 80 if tier == "quick" else 1600
+    n = 72 if tier == "quick" else 1440
     plan = ([("exact", "exact", "wf")] * 4 + [("exact", "tol", "wf")] * 2 + [("exact", "exact", "errors")]
             + [("exact", "exact", "ends_nonzero")] + [("exact", "tol", "ends_nonzero")]
             + [("approx", "exact", "samegrid")] * 2 + [("approx", "exact", "mixed")] * 3
             + [("approx", "tol", "mixed")] * 2 + [("approx", "exact", "errors")] + [("approx", "tol", "errors")]
             + [("approx", "exact", "dtypes")] * 2 + [("approx", "tol", "dtypes")]
-            + [("exact", "exact", "ints")] + [("exact", "tol", "ints")])
+            + [("exact", "exact", "ints")] + [("exact", "tol", "ints")]
+            + [("exact", "exact", "lazy")] * 2 + [("exact", "tol", "lazy")] + [("approx", "exact", "lazy")])
     cases = []
     for i in range(n * len(plan) // 8):
         fam, mode, cls = plan[i % len(plan)]
@@ -395,6 +438,11 @@ def corpus():
                               V([[1.0, -2.0, 3.0, -1.0, 2.0]], "int64")],
                    "steps": [B("add", 0, 1), B("add", 1, 0), B("sub", 0, 1), B("sub", 1, 0), B("add", 2, 3), B("sub", 3, 2),
                              B("add", 0, 3), B("sub", 3, 0), B("add", 2, 1), B("sub", 1, 2), B("add", 4, 9)]})
+    # compute=False: a 3-depth diagram landscape whose first use is + / - with a 1-depth operand, both positions
+    lz = lambda: {"kind": "dgm", "dgm": [[0.0, 8.0], [1.0, 7.0], [2.0, 6.0]], "hom_deg": 0, "lazy": True}
+    stored.append({"fam": "exact", "mode": "exact", "cls": "corpus/lazy",
+                   "leaves": [lz(), E([[[0.0, 0.0], [1.0, 1.0], [2.0, 0.0]]]), lz(), lz(), lz()],
+                   "steps": [B("add", 0, 1), B("add", 1, 2), B("sub", 3, 1), B("sub", 1, 4), B("add", 0, 2)]})
     return stored + [
         # the suite's own example shapes
         {"fam": "exact", "mode": "exact", "leaves": [E([[[0.0, 0.0], [1.0, 1.0], [2.0, 0.0]]]),
@@ -464,19 +512,36 @@ def _run_one(c):
     from persim.landscapes import snap_pl, lc_approx, average_approx
     fam = c["fam"]
     objs, fp0 = [], []
+    twins = {}     # leaf index -> eager twin (its critical_pairs / values are the leaf's value for model and spec)
+    lazy = {}      # id(lazy object) -> (fingerprint of its eagerly computed twin, canonical form of its diagram)
+
+    def fprint(o):
+        info = lazy.get(id(o))
+        if info is not None:
+            untouched = (not o.critical_pairs) if fam == "exact" else (np.asarray(o.values).size == 0)
+            if untouched:
+                # not computed yet: unchanged iff the stored diagram is; afterwards it must equal the eager twin
+                return info[0] if _canon([o.hom_deg, o.dgms]) == info[1] else "lazy-object-modified"
+        return _fingerprint(o, fam)
 
     def new(o):
         objs.append(o)
-        fp0.append(_fingerprint(o, fam) if o is not None else None)
+        fp0.append(fprint(o) if o is not None else None)
 
     for l in c["leaves"]:
         deg = l["hom_deg"]
         if l["kind"] == "dgm":
             dg = [np.zeros((0, 2))] * deg + [np.array(l["dgm"], dtype=float).reshape(-1, 2)]
-            if fam == "exact":
-                new(PersLandscapeExact(dgms=dg, hom_deg=deg))
+            kw = {} if fam == "exact" else dict(start=l["start"], stop=l["stop"], num_steps=l["num_steps"])
+            cls_ = PersLandscapeExact if fam == "exact" else PersLandscapeApprox
+            if l.get("lazy"):
+                twin = cls_(dgms=[d.copy() for d in dg], hom_deg=deg, **kw)
+                o = cls_(dgms=dg, hom_deg=deg, compute=False, **kw)
+                lazy[id(o)] = (_fingerprint(twin, fam), _canon([o.hom_deg, o.dgms]))
+                twins[len(objs)] = twin
+                new(o)
             else:
-                new(PersLandscapeApprox(dgms=dg, hom_deg=deg, start=l["start"], stop=l["stop"], num_steps=l["num_steps"]))
+                new(cls_(dgms=dg, hom_deg=deg, **kw))
         elif fam == "exact":
             cp = [[[float(x), float(y)] for x, y in d] for d in l["cp"]]
             if l.get("ints"):
@@ -486,7 +551,7 @@ def _run_one(c):
             dt = np.int64 if l.get("dtype") == "int64" else np.float64
             new(PersLandscapeApprox(values=np.array(l["values"], dtype=dt), start=l["start"], stop=l["stop"],
                                     num_steps=l["num_steps"], hom_deg=deg))
-    out = {"leaves": [_snap_obj(o, fam) for o in objs], "fp0": list(fp0), "steps": []}
+    out = {"leaves": [_snap_obj(twins.get(j, o), fam) for j, o in enumerate(objs)], "fp0": list(fp0), "steps": []}
     for st in c["steps"]:
         op = st["op"]
         nout = st.get("nout", 1)
@@ -530,7 +595,7 @@ def _run_one(c):
             for _ in range(nout):
                 new(None)
         # every live object, fingerprinted again after the step
-        rec["fp"] = [None if o is None else _fingerprint(o, fam) for o in objs]
+        rec["fp"] = [None if o is None else fprint(o) for o in objs]
         out["steps"].append(rec)
     out["fp0"] = list(fp0)
     return out
